@@ -35,6 +35,9 @@ def reshape(self, shape, recursive=True):
     obj = Qube.__new__(type(self))
     obj.__init__(new_values, new_mask, example=self)
     obj._readonly_ = self._readonly_
+    if obj._readonly_:              # NumPy may have returned a copy
+        Qube._array_to_readonly(obj._values_)
+        Qube._array_to_readonly(obj._mask_)
 
     if recursive:
         for (key, deriv) in self._derivs_.items():
